@@ -10,7 +10,7 @@ from props.common import *
 from vfw import x690ref as R
 from vfw.schema import T
 
-BOUNDS = ("constrained types: INTEGER (0..10); OCTET STRING SIZE (1..2); SEQUENCE OF INTEGER (0..10) SIZE (1..2); SET OF likewise; SEQUENCE {a INTEGER (0..10), b OCTET STRING SIZE (1..2) "
+BOUNDS = ("constrained types: INTEGER (0..10); INTEGER (0..20) EXCEPT (3..5 | 11..13 | 18); INTEGER (0..2 | 7 | 9 | 15..16); OCTET STRING SIZE (1..2); SEQUENCE OF INTEGER (0..10) SIZE (1..2); SET OF likewise; SEQUENCE {a INTEGER (0..10), b OCTET STRING SIZE (1..2) "
           "OPTIONAL, c BOOLEAN DEFAULT FALSE}; SET {a, b?} ; inputs = reference encodings of a neighbouring, unconstrained type with symbolic slots (values -2..12, lengths 0..3, "
           "0..3 elements, members missing / repeated / extra / permuted, definite and indefinite length), decoders BER/CER/DER")
 OUTSIDE = "constraint kinds other than value range, size and mandatory presence; deeper nesting"
@@ -66,6 +66,28 @@ def scalar_int(dec, v):
     if w is None:
         return None
     return _after(I_C, w, None if 0 <= int(w) <= 10 else "INTEGER %s outside (0..10)" % int(w))
+
+
+# INTEGER (0..20) EXCEPT (3..5 | 11..13), and a union of a range with single values
+X_C = univ.Integer().subtype(subtypeSpec=constraint.ConstraintsIntersection(
+    constraint.ValueRangeConstraint(0, 20), constraint.ConstraintsExclusion(constraint.ValueRangeConstraint(3, 5), constraint.ValueRangeConstraint(11, 13), constraint.SingleValueConstraint(18))))
+U_C = univ.Integer().subtype(subtypeSpec=constraint.ConstraintsUnion(constraint.ValueRangeConstraint(0, 2), constraint.SingleValueConstraint(7, 9), constraint.ValueRangeConstraint(15, 16)))
+
+
+def scalar_excl(dec, v, nested):
+    spec = X_C
+    octets = bytes(R.der(N_INT, v))
+    if nested:
+        spec = univ.Sequence(componentType=namedtype.NamedTypes(namedtype.NamedType("slot", X_C), namedtype.OptionalNamedType("u", U_C)))
+        octets = bytes(R.der(T("SEQ", comps=[("slot", N_INT, "req", None), ("u", N_INT, "req", None)]), {"slot": v, "u": v}))
+    w = _try(dec, octets, spec)
+    if w is None:
+        return None
+    ok_x = 0 <= v <= 20 and not (3 <= v <= 5) and not (11 <= v <= 13) and v != 18
+    ok_u = 0 <= v <= 2 or v in (7, 9) or 15 <= v <= 16
+    if nested:
+        return _after(spec, w, None if (ok_x and ok_u) else "INTEGER %d accepted although excluded by the component's constraint" % v)
+    return _after(spec, w, None if ok_x else "INTEGER %d accepted although (0..20) EXCEPT (3..5 | 11..13 | 18) excludes it" % v)
 
 
 def scalar_octs(dec, n, o0, o1, o2):
@@ -180,6 +202,8 @@ def setrec(dec, indef, ha, a, hb, bn, b0, dup, extra, swap):
 
 V = I(-2, 12)
 OBLIGATIONS = [
+    Obl("scalar_excl", scalar_excl, {"dec": I(0, 2), "v": I(-3, 23), "nested": B}, budget=90,
+        doc="INTEGER (0..20) EXCEPT (3..5 | 11..13 | 18) and a union constraint, at top level and as SEQUENCE members: accepted => inside the set-theoretic denotation"),
     Obl("scalar_int", scalar_int, {"dec": I(0, 2), "v": I(-300, 300)}, budget=60),
     Obl("scalar_octs", scalar_octs, {"dec": I(0, 2), "n": I(0, 3), "o0": BYTE, "o1": BYTE, "o2": BYTE}, budget=60),
     Obl("listof", listof, {"dec": I(0, 2), "setof": B, "indef": B, "k": I(0, 3), "v0": V, "v1": V, "v2": V},
